@@ -165,9 +165,17 @@ lzma2_decode(void *coder_ptr, lzma_dict *restrict dict,
 		// coder->compressed_size later.
 		const size_t in_start = *in_pos;
 
+		// Don't let the LZMA decoder read past the end of this
+		// chunk. Otherwise, with a corrupt chunk, it would depend
+		// on how the input was split between calls how far the
+		// decoder gets before the problem is detected below.
+		size_t in_limit = in_size;
+		if (in_size - in_start > coder->compressed_size)
+			in_limit = in_start + coder->compressed_size;
+
 		// Decode from in[] to *dict.
 		const lzma_ret ret = coder->lzma.code(coder->lzma.coder,
-				dict, in, in_pos, in_size);
+				dict, in, in_pos, in_limit);
 
 		// Validate and update coder->compressed_size.
 		const size_t in_used = *in_pos - in_start;
@@ -177,8 +185,17 @@ lzma2_decode(void *coder_ptr, lzma_dict *restrict dict,
 		coder->compressed_size -= in_used;
 
 		// Return if we didn't finish the chunk, or an error occurred.
-		if (ret != LZMA_STREAM_END)
+		if (ret != LZMA_STREAM_END) {
+			// If the whole chunk has been consumed and the LZMA
+			// decoder stopped even though there is still space
+			// in the dictionary, it needs more input than what
+			// the chunk has.
+			if (ret == LZMA_OK && coder->compressed_size == 0
+					&& dict->pos < dict->limit)
+				return LZMA_DATA_ERROR;
+
 			return ret;
+		}
 
 		// The LZMA decoder must have consumed the whole chunk now.
 		// We don't need to worry about uncompressed size since it
